@@ -169,6 +169,13 @@ class Opaque:
         self.what = what
 
 
+class StateVec:
+    """Newton state vector x: element 0 is iota (scalar var head), the rest is sigma (profile var tail).
+    x == Pin0(tail, head); only np.copy(x) followed by a store to [0], and x[0], are supported."""
+    def __init__(self, tail, head):
+        self.tail, self.head = tail, head
+
+
 class Linspace:
     def __init__(self, start, stop, n):
         self.start, self.stop, self.n = start, stop, n
@@ -677,6 +684,9 @@ class Interp:
         if isinstance(obj, SBlockVec):
             b = self.block_of_slice(idx, e)
             return obj.blocks[b]
+        if isinstance(obj, StateVec) and idx == (0,):
+            self.inputs[obj.head.args[0]] = 's'
+            return obj.head
         if isinstance(obj, Linspace) and len(idx) == 1 and isinstance(idx[0], int):
             k = idx[0]
             step = mk('Div', mk('Sub', obj.stop, obj.start), obj.n)
@@ -834,6 +844,9 @@ class Interp:
     def c_np_cos(self, a): return self.un('Cos', a)
     def c_np_exp(self, a): return self.un('Exp', a)
     def c_np_copy(self, a):
+        if isinstance(a, StateVec):
+            self.inputs[a.tail.args[0]] = 'p'
+            return a.tail
         if isinstance(a, Opaque) and a.what == 'd_d_varphi':
             M = SMat(1)
             M.ops[(0, 0)] = [(None, None)]
